@@ -18,10 +18,14 @@ pub mod c06;
 pub mod c16;
 // --- kit-wire2 (wirekit2): C13, C17, C19 --------------------------------------------------------
 #[cfg(feature = "kit-wire2")]
+pub mod c13;
+#[cfg(feature = "kit-wire2")]
 pub mod c17;
 #[cfg(feature = "kit-wire2")]
 pub mod c19;
 // --- kit-sim (simkit): C01-C05, C08, C09, C11, C12, C14, C15, C18(in-Sim), C20 ------------------
+#[cfg(feature = "kit-sim")]
+pub mod c08;
 #[cfg(feature = "kit-sim")]
 pub mod c03;
 #[cfg(feature = "kit-sim")]
@@ -74,10 +78,14 @@ pub fn dispatch(id: &str, a: &Action) -> i32 {
         "C16" => act::<c16::C16>(a),
         // (kit-wire2 arms)
         #[cfg(feature = "kit-wire2")]
+        "C13" => act::<c13::C13>(a),
+        #[cfg(feature = "kit-wire2")]
         "C17" => act::<c17::C17>(a),
         #[cfg(feature = "kit-wire2")]
         "C19" => act::<c19::C19>(a),
         // (kit-sim arms)
+        #[cfg(feature = "kit-sim")]
+        "C08" => act::<c08::C08>(a),
         #[cfg(feature = "kit-sim")]
         "C03" => act::<c03::C03>(a),
         #[cfg(feature = "kit-sim")]
